@@ -121,13 +121,13 @@ HugeCase(ci, wh, hi, st, fi, ot, vi) ==
 (* extreme magnitudes                                                      *)
 (***************************************************************************)
 XVals == <<Num(1, 1, -1074), Num(-1, 3, -1074), Num(1, 1, -1022), Num(1, 1, 53), Num(1, 2147483647, 22),
-           Num(-1, 1, 100), Num(1, 1, 1023)>>
+           Num(-1, 1, 100), Num(1, 1, 1023), Num(1, 3, 99), Num(1, 1953125, 80)>>
 XConvs == <<100, 120, 111, 101, 69, 102, 103, 115>>
 XFlags == << <<>>, <<43>>, <<35, 48>>, <<45>> >>
 XW == << <<>>, <<49, 50>> >>
 XP == << <<>>, <<46, 48>>, <<46, 51>>, <<46, 50, 48>>, <<46, 49, 49, 48, 48>> >>
 XCase(ci, fi, wi, pi, vi) ==
-  [u |-> "extreme", idx |-> ((((ci - 1) * 4 + (fi - 1)) * 2 + (wi - 1)) * 5 + (pi - 1)) * 7 + (vi - 1),
+  [u |-> "extreme", idx |-> ((((ci - 1) * 4 + (fi - 1)) * 2 + (wi - 1)) * 5 + (pi - 1)) * Len(XVals) + (vi - 1),
    fmt |-> <<37>> \o XFlags[fi] \o XW[wi] \o XP[pi] \o <<XConvs[ci]>>, v |-> XVals[vi],
    wv |-> IntV(0), pv |-> IntV(0), key |-> KA, hid |-> FALSE]
 
@@ -318,7 +318,8 @@ Next ==
        [] Mode = "extreme" ->
             \E fi \in 1..4, wi \in 1..2, pi \in 1..5 :
                /\ (pi = 5 => XConvs[c.a] \in {101, 102})
-               /\ Sel(XCase(c.a, fi, wi, pi, c.b).idx)
+               \* the plain directive of every conversion on every extreme value is always taken
+               /\ ((fi = 1 /\ wi = 1 /\ pi = 1) \/ Sel(XCase(c.a, fi, wi, pi, c.b).idx))
                /\ c' = XCase(c.a, fi, wi, pi, c.b)
        [] Mode = "args" ->
             \E f \in Fmts : c' = [u |-> "args", idx |-> c.a, fmt |-> f, vals |-> ArgVals[c.a]]
